@@ -72,6 +72,9 @@ func interpreterState(c *Ctx, rule string) {
 					}
 					return
 				}
+				if _, fresh := stripLoads(sf.Base).(*ssa.Alloc); fresh {
+					return // a node being built here
+				}
 				if !isParserFn && isSyntaxNodeName(sn) && sf.Struct.Obj().Pkg() == p.Lang.Types {
 					n++
 					c.violated(rule, "syntax-tree-store "+sn+"."+sf.Name+" in "+shortName(fn), p.InstrPos(x), "a field of the syntax-tree node "+sn+" is written outside the parser: the tree (and with it the meaning of the program text) changes while the program runs")
